@@ -153,3 +153,137 @@ class CodecFam(Family):
     def nontrivial(self, c):
         raw = unhx(c.get('text') or c.get('data') or '')
         return any(x >= 0x80 for x in raw)
+
+
+class Spelling(Family):
+    """C15: newline/BOM handling per codec spelling."""
+    name = 'spelling'
+    rule = ('every spelling of the regenerated codec catalogue (alias x case x hyphen/underscore variants, not purely '
+            'numeric, stateless text codecs) x {unix, dos}: get_newline_for_type and guess_line_endings against the '
+            'model and against the BOM-free incremental encoding; plus a write/read round trip of a preamble, a meta '
+            'and a diff under a seeded sample (quick) / all (thorough) of the spellings of the ten modelled codecs; '
+            'non-trivial = the spelling differs from the canonical name; distinct by (spelling, kind)')
+
+    def cases(self, tier, rng, prop_id):
+        import sys
+        sys.path.insert(0, lib.VERIF + '/gen')
+        import gen_codecs
+        rows = gen_codecs.catalogue()
+        modelled = {'ascii', 'iso8859-1', 'utf-8', 'utf-8-sig', 'utf-16', 'utf-16-le', 'utf-16-be', 'utf-32',
+                    'utf-32-le', 'utf-32-be'}
+        for r in rows:
+            if not r['stateless']:
+                continue
+            for le in ('unix', 'dos'):
+                yield dict(kind='newline', spelling=r['spelling'], canonical=r['canonical'], le=le)
+            yield dict(kind='guess', spelling=r['spelling'], canonical=r['canonical'],
+                       data=hx('ab\r\ncd\n'.encode(r['spelling'])))
+        rt = [r for r in rows if r['canonical'] in modelled]
+        if tier == 'quick':
+            rt = rng.sample(rt, min(60, len(rt)))
+        for r in rt:
+            yield dict(kind='roundtrip', spelling=r['spelling'], canonical=r['canonical'])
+
+    def model_line(self, c):
+        if c['kind'] == 'newline':
+            return L('newline_for', H(c['le'].encode()), Opt(c['spelling'], lambda s: H(s.encode())))
+        if c['kind'] == 'guess':
+            return L('guess', '#' + c['data'], Opt(c['spelling'], lambda s: H(s.encode())))
+        import streamlib as sl
+        wobs, data, robs, rt, orc, per = self._rt(c)
+        return L('write_read', sl.wv_sx(sl.S('utf-8')), sl.wv_sx(sl.S('1.0')),
+                 '(' + ' '.join(sl.call_sx(x) for x in self._calls(c)) + ')', '96', orc)
+
+    def _calls(self, c):
+        import streamlib as sl
+        s = c['spelling']
+        text = 'h\xe9llo\nw\n' if c['canonical'] != 'ascii' else 'hello\nw\n'
+        return [['write_preamble', sl.S(text), sl.S(s), 'omitted', None, None],
+                ['new_change', sl.S(s)],
+                ['write_preamble', sl.S(text + 'x'), None, {'i': 2}, sl.S('dos'), None],
+                ['new_file', None],
+                ['write_meta', {'d': {'k': 'v'}}, None, 'omitted'],
+                ['write_diff', sl.Bv(('-a\n+b\n').encode(s)), None, sl.S(s), None]]
+
+    def _rt(self, c):
+        import streamlib as sl
+        if '_rt' not in c:
+            wobs, data, per = sl.run_writer(sl.S('utf-8'), sl.S('1.0'), self._calls(c))
+            robs, records, term, orc = sl.run_reader(data)
+            c['_rt'] = (wobs, data, robs, (records, term), orc, per)
+        return c['_rt']
+
+    def impl_obs(self, c):
+        from pydiffx.utils.text import get_newline_for_type, guess_line_endings
+        if c['kind'] == 'newline':
+            try:
+                return '(ok %s)' % H(get_newline_for_type(c['le'], c['spelling']))
+            except Exception:
+                return '(exc)'
+        if c['kind'] == 'guess':
+            try:
+                le, nl = guess_line_endings(unhx(c['data']), c['spelling'])
+                return '(ok (%s %s))' % (H(le.encode()), H(nl))
+            except Exception:
+                return '(exc)'
+        wobs, data, robs, rt, orc, per = self._rt(c)
+        return '(%s %s)' % (wobs, robs)
+
+    def normalize_model(self, line):
+        import streamlib as sl
+        return sl.collapse_exc(line)
+
+    def nontrivial(self, c):
+        return c['spelling'] != c['canonical']
+
+    def bucket(self, c):
+        return c['kind']
+
+    def oracle(self, c, obs):
+        import codecs
+        from pydiffx.utils.text import get_newline_for_type, guess_line_endings
+        s = c['spelling']
+
+        def mid(text):
+            e = codecs.getincrementalencoder(s)()
+            e.encode('a')
+            return e.encode(text)
+        out = []
+        if c['kind'] == 'newline':
+            want = mid('\n' if c['le'] == 'unix' else '\r\n')
+            try:
+                got = get_newline_for_type(c['le'], s)
+            except Exception as e:
+                return [('C15', 'exception', '%s: %s' % (s, type(e).__name__))]
+            if got != want:
+                out.append(('C15', 'newline-has-bom-or-differs', 'newline for %s/%s under spelling %r is %r, the BOM-free '
+                            'encoding is %r' % (c['canonical'], c['le'], s, got, want)))
+        elif c['kind'] == 'guess':
+            try:
+                le, nl = guess_line_endings(unhx(c['data']), s)
+            except Exception as e:
+                return [('C15', 'exception', '%s: %s' % (s, type(e).__name__))]
+            if (le, nl) != ('dos', mid('\r\n')):
+                out.append(('C15', 'guess-differs', 'guess under %r gave %r' % (s, (le, nl))))
+        else:
+            wobs, data, robs, rt, orc, per = self._rt(c)
+            records, term = rt
+            if not all(p[0] for p in per) or term[0] != 'end':
+                out.append(('C15', 'roundtrip-failed', 'write/read under spelling %r failed: %r %r'
+                            % (s, [p[2] for p in per if not p[0]][:1], term[:2])))
+            else:
+                import gen_calls as gc
+                import streamlib as sl
+                d = gc.compare_records(gc.expected_records('utf-8', self._calls(c)), records)
+                if d:
+                    out.append(('C15', 'roundtrip-differs', 'spelling %r: %s' % (s, d)))
+                # same bytes as under the canonical name, apart from the spelled name
+                c2 = dict(c, spelling={'iso8859-1': 'latin-1'}.get(c['canonical'], c['canonical']))
+                c2.pop('_rt', None)
+                w2 = self._rt(c2)[1]
+                def norm(b):
+                    return b.replace(s.encode(), b'@').replace(c2['spelling'].encode(), b'@')
+                if norm(data) != norm(w2):
+                    out.append(('C15', 'bytes-depend-on-spelling', 'bytes under %r differ from those under %r'
+                                % (s, c2['spelling'])))
+        return out
